@@ -31,6 +31,7 @@ pub fn parse_bindings(ctx: &mut Context, s: &str) {
 pub struct Locator {
     by_id: HashMap<usize, String>,
     attrs: Vec<(String, String, String)>, // (owner path, local name, value) for attributes with id 0
+    merge_text: bool,
 }
 
 fn local(name: &str) -> &str {
@@ -39,7 +40,15 @@ fn local(name: &str) -> &str {
 
 impl Locator {
     pub fn new(doc: &XmlDocument) -> Locator {
-        let mut l = Locator { by_id: HashMap::new(), attrs: vec![] };
+        let mut l = Locator { by_id: HashMap::new(), attrs: vec![], merge_text: false };
+        l.walk(&doc.as_node(), "", 0);
+        l
+    }
+
+    // numbering that does not depend on how character data is cut into Text nodes: a run of adjacent Text nodes
+    // takes one child index and an empty Text node none (used to compare an edited document with its re-parse)
+    pub fn new_merged(doc: &XmlDocument) -> Locator {
+        let mut l = Locator { by_id: HashMap::new(), attrs: vec![], merge_text: true };
         l.walk(&doc.as_node(), "", 0);
         l
     }
@@ -67,11 +76,28 @@ impl Locator {
         // the document type declaration is not a node of the XPath data model: it gets no child index
         let kids = n.child_nodes();
         let mut j = 0;
+        let mut in_text_run = false;
         for i in 0..kids.length() {
             if let Some(k) = kids.item(i) {
                 if let XmlNode::DocumentType(_) = k {
                     self.by_id.entry(k.id()).or_insert(format!("{}/!doctype", path));
                     continue;
+                }
+                if self.merge_text {
+                    if let XmlNode::Text(t) = &k {
+                        use xml_dom::CharacterData;
+                        if t.length() == 0 {
+                            self.by_id.entry(k.id()).or_insert(format!("{}/!empty", path));
+                            continue;
+                        }
+                        if in_text_run {
+                            self.by_id.entry(k.id()).or_insert(format!("{}/{}", path, j - 1));
+                            continue;
+                        }
+                        in_text_run = true;
+                    } else {
+                        in_text_run = false;
+                    }
                 }
                 self.walk(&k, &format!("{}/{}", path, j), depth + 1);
                 j += 1;
